@@ -1742,6 +1742,9 @@ pub fn run_c07(w: &mut W) {
         let wid = if reserved_v9 { *rng.pick(&[9u16, 9, 5, 7, 10, 2, 255]) } else if reserved { 255 } else { fresh_id(&ex, &mut rng) };
         let mut shadow = ex.clone();
         let (tmpl_pkt, data_fs_v9, data_set_ix): (Vec<u8>, Option<V9FlowSet>, Option<IpfixSet>);
+        // the packet in which the template finally arrives (V9, one time in three): a template
+        // flowset of two or three records, the withheld id among companions, ids in any order
+        let mut late_pkt: Option<Vec<u8>> = None;
         if v9 {
             let mut t = shadow.v9_new_template(&mut rng, &cfg, &w.pools);
             shadow.v9_t.remove(&t.id);
@@ -1759,6 +1762,32 @@ pub fn run_c07(w: &mut W) {
                 w.rep.count("orphans_without_a_complete_record", 1);
             }
             tmpl_pkt = shadow.v9_wrap(&mut rng, &cfg, vec![V9FlowSet::Template { templates: vec![t.clone()], padding: vec![] }]).wire();
+            if rng.chance(1, 3) {
+                let mut ts = vec![t.clone()];
+                for k in 0..1 + rng.usize(2) {
+                    let cid = wid ^ (1 << k);
+                    let mut c = shadow.v9_new_template(&mut rng, &cfg, &w.pools);
+                    shadow.v9_t.remove(&c.id);
+                    if shadow.v9_o.contains_key(&cid) || shadow.v9_t.contains_key(&cid) {
+                        continue;
+                    }
+                    // (not entered into the exporter model: nothing refers to the companions before
+                    // or after the late packet)
+                    c.id = cid;
+                    ts.push(c);
+                }
+                ts.sort_by_key(|x| x.id);
+                if rng.chance(2, 3) {
+                    ts.reverse();
+                }
+                if ts.len() > 2 && rng.chance(1, 2) {
+                    ts.swap(0, 1);
+                }
+                if ts.len() > 1 {
+                    w.rep.count("late_templates_in_a_multi_record_flowset", 1);
+                    late_pkt = Some(shadow.v9_wrap(&mut rng, &cfg, vec![V9FlowSet::Template { templates: ts, padding: vec![] }]).wire());
+                }
+            }
             data_fs_v9 = Some(d);
             data_set_ix = None;
             match reason {
@@ -2051,7 +2080,7 @@ pub fn run_c07(w: &mut W) {
             if reserved {
                 return Ok(()); // no template can carry the id 255
             }
-            sut.parse(0, &tmpl_pkt);
+            sut.parse(0, late_pkt.as_ref().unwrap_or(&tmpl_pkt));
             let res = sut.parse(0, &data_pkt_alone);
             w.rep.count("later_resolved", 1);
             match (res.as_slice(), v9) {
